@@ -20,6 +20,7 @@ type RawManager struct {
 	nodes     []*RawNode
 	lookup    map[uint32]*RawNode
 	closeOnce sync.Once
+	closed    bool // set by Close, guarded by mu: no node is added afterwards
 	logger    *log.Logger
 	opts      managerOptions
 	nextMsgID uint64
@@ -55,7 +56,13 @@ func NewRawManager(opts ...ManagerOption) *RawManager {
 }
 
 func (m *RawManager) closeNodeConns() {
-	for _, node := range m.nodes {
+	// The pool is read under the lock: configurations may be created concurrently with Close.
+	m.mu.Lock()
+	m.closed = true
+	nodes := make([]*RawNode, len(m.nodes))
+	copy(nodes, m.nodes)
+	m.mu.Unlock()
+	for _, node := range nodes {
 		err := node.close()
 		if err != nil && m.logger != nil {
 			m.logger.Printf("error closing: %v", err)
@@ -125,6 +132,12 @@ func (m *RawManager) AddNode(node *RawNode) error {
 		// Node IDs must be unique
 		return fmt.Errorf("config: node %d (%s) already exists", node.ID(), node.Address())
 	}
+	m.mu.Lock()
+	closed := m.closed
+	m.mu.Unlock()
+	if closed {
+		return fmt.Errorf("config: manager is closed, cannot add node %d (%s)", node.ID(), node.Address())
+	}
 	if m.logger != nil {
 		m.logger.Printf("Connecting to %s with id %d\n", node, node.id)
 	}
@@ -136,6 +149,12 @@ func (m *RawManager) AddNode(node *RawNode) error {
 
 	m.mu.Lock()
 	defer m.mu.Unlock()
+	if m.closed {
+		// Close has run while the node was connecting and has not seen it: it would
+		// never be closed.
+		_ = node.close()
+		return fmt.Errorf("config: manager is closed, cannot add node %d (%s)", node.ID(), node.Address())
+	}
 	m.lookup[node.id] = node
 	m.nodes = append(m.nodes, node)
 	return nil
